@@ -591,6 +591,11 @@ coll_impl!(<'w> RetryingLockCollection<(OwnedLockCollection<[R; 0]>, &'w R, Owne
 coll_impl!(<'w> BoxedLockCollection<&'w [Vec<R>; 2]>, "Boxed<&[Vec<RwLock>;2]> (new_ref)", rw);
 coll_impl!(<'w> RefLockCollection<'w, [Vec<R>; 2]>, "Ref<[Vec<RwLock>;2]> (new)", rw);
 coll_impl!(<'w> RetryingLockCollection<&'w [Vec<R>; 2]>, "Retrying<&[Vec<RwLock>;2]> (new_ref)", rw);
+// `&mut` members (they are OwnedLockable): happylock's `impl Lockable for &mut T`
+coll_impl!(<'w> OwnedLockCollection<Vec<&'w mut R>>, "Owned<Vec<&mut RwLock>>", rw);
+coll_impl!(<'w> BoxedLockCollection<Vec<&'w mut R>>, "Boxed<Vec<&mut RwLock>> (new)", rw);
+coll_impl!(<'w> RetryingLockCollection<Vec<&'w mut R>>, "Retrying<Vec<&mut RwLock>> (new)", rw);
+coll_impl!(<'w> RefLockCollection<'w, Vec<&'w mut R>>, "Ref<Vec<&mut RwLock>> (new)", rw);
 // unchecked-at-runtime constructors over owning inputs
 coll_impl!(<'w> BoxedLockCollection<&'w OW>, "Boxed<&Owned> (new_ref)", rw);
 coll_impl!(<'w> RefLockCollection<'w, OW>, "Ref<Owned> (new)", rw);
@@ -642,7 +647,7 @@ impl Store {
 		});
 		Store { items: RefCell::new(vec![]), base, off: std::cell::Cell::new(0) }
 	}
-	pub fn stash<'s, T: 's>(&'s self, v: T) -> &'s T {
+	fn stash_raw<T>(&self, v: T) -> *mut T {
 		unsafe fn dropper<T>(p: *mut u8) {
 			std::ptr::drop_in_place(p as *mut T);
 		}
@@ -654,7 +659,15 @@ impl Store {
 		let p = unsafe { self.base.add(start) } as *mut T;
 		unsafe { std::ptr::write(p, v) };
 		self.items.borrow_mut().push((p as *mut u8, dropper::<T>));
-		unsafe { &*p }
+		p
+	}
+	/// Like `stash`, but hands out the unique reference (the caller is the only user of the object).
+	#[allow(clippy::mut_from_ref)]
+	pub fn stash_mut<'s, T: 's>(&'s self, v: T) -> &'s mut T {
+		unsafe { &mut *self.stash_raw(v) }
+	}
+	pub fn stash<'s, T: 's>(&'s self, v: T) -> &'s T {
+		unsafe { &*self.stash_raw(v) }
 	}
 }
 impl Drop for Store {
